@@ -406,7 +406,7 @@ def gen_spec(rng, thorough=False):
         used_names.add(nm)
         e = {'name': nm, 'attrs': [], 'composites': [], 'used': set(), 'bases': None}
         if (i > 0 and rng.random() < 0.3) or (focus == 'inherit' and i > 1 and rng.random() < 0.8):
-            base = rng.choice(ents) if focus != 'inherit' else rng.choice(ents[1:])
+            base = rng.choice(ents) if focus != 'inherit' else rng.choice(ents[1:] or ents)
             e['bases'] = [base['name']]
             if rng.random() < 0.9: e['used'] = base['used']      # one name pool per hierarchy (else: 'hides base attribute' rejections)
             if rng.random() < 0.15 and len(ents) > 1: e['bases'].append(rng.choice([x for x in ents if x['name'] != e['bases'][0]])['name'])
